@@ -119,8 +119,16 @@ def install(ctx, repo, probes):
     probes.wrap(TP, "to_utc", post_utc, pre)
 
     def post_local(snap, args, kwargs, q, exc):
-        if snap is not None:
-            judge("to_local_time_zone", snap, ctx.local_offset, q, exc)
+        if snap is None:
+            return
+        # the system offset in effect, read from what the library reads
+        tm = repo.timezone.time
+        off = -tm.timezone
+        if tm.localtime().tm_isdst == 1 and tm.daylight:
+            off = -tm.altzone
+        if off % 60:
+            return
+        judge("to_local_time_zone", snap, R.split_offset_seconds(off), q, exc)
     ctx.local_offset = (0, 0)
     probes.wrap(TP, "to_local_time_zone", post_local, pre)
 
